@@ -215,6 +215,7 @@ static uint8_t last_blinding[32];
 static int last_blinding_known;
 
 static int in_dh, dh_entropy_calls, dh_entropy_rc;
+static size_t dh_draw_len[8];
 static const uint8_t * dh_cur_priv;
 static void set_patterns(const uint8_t priv[32], const uint8_t * blinding);
 static int low_entropy(const uint8_t * p);
@@ -224,8 +225,11 @@ __wrap_crypto_entropy_read(uint8_t * buf, size_t len)
 {
 	int rc;
 
-	if (in_dh)
+	if (in_dh) {
+		if (dh_entropy_calls < 8)
+			dh_draw_len[dh_entropy_calls] = len;
 		dh_entropy_calls++;
+	}
 	if (blind_override == 0) {
 		rc = __real_crypto_entropy_read(buf, len);
 	} else if (blind_override == 4) {
@@ -676,22 +680,34 @@ dh_once(const uint8_t priv[32], const uint8_t * peer, uint8_t out[256], const st
 	}
 	TR(0x02, peer != NULL, rc, "crypto_dh_%s -> %d (%d libcrypto allocations%s, blinding drawn %d time(s))", peer ? "compute" : "generate_pub", rc, ossl_n,
 	    ossl_failed ? ", one failed" : "", dh_entropy_calls);
-	/* keep the generator model in step: the DH code drew 32 bytes of blinding through the real generator */
+	/* keep the generator model in step: whatever the DH code drew went through the real generator */
 	if (blind_override == 0 && dh_entropy_calls > 0) {
-		erc = model_read(b2, 32, simalloc_failed != f0);
-		if ((erc != 0) != (dh_entropy_rc != 0))
-			sim_viol("C11.failure-rc", "in-dh", "drawing the blinding returned %d, the entropy device says it should have %s", dh_entropy_rc, erc ? "failed" : "succeeded");
-		if (erc == 0 && last_blinding_known && memcmp(b2, last_blinding, 32) != 0)
-			sim_viol("C11.output", "in-dh", "the blinding drawn inside the DH computation differs from HMAC_DRBG(SHA-256)");
+		int d;
+
+		for (d = 0; d < dh_entropy_calls && d < 8; d++) {
+			uint8_t * tmp = malloc(dh_draw_len[d] + 1);
+
+			erc = model_read(tmp, dh_draw_len[d], simalloc_failed != f0);
+			if (d == dh_entropy_calls - 1) {
+				if ((erc != 0) != (dh_entropy_rc != 0))
+					sim_viol("C11.failure-rc", "in-dh", "drawing the blinding returned %d, the entropy device says it should have %s", dh_entropy_rc, erc ? "failed" : "succeeded");
+				if (erc == 0 && last_blinding_known && dh_draw_len[d] == 32 && memcmp(tmp, last_blinding, 32) != 0)
+					sim_viol("C11.output", "in-dh", "the blinding drawn inside the DH computation differs from HMAC_DRBG(SHA-256)");
+			}
+			free(tmp);
+			if (erc != 0)
+				break;
+			first_sess = nsess;	/* (sessions are attributed to the first draw that needs them) */
+		}
 	}
+	(void)b2;
 	if (blind_override != 0)
 		R->cnt[N_DH_CHOSEN_BLIND]++;
-	if (dh_entropy_calls > 1)
-		sim_viol("C10.blinding-dependent", "two-draws", "the DH computation drew blinding entropy %d times", dh_entropy_calls);
-	if (dh_entropy_calls > 0 && dh_entropy_rc != 0 && rc == 0)
-		sim_viol("C10.failure-rc", "entropy", "the entropy source failed while drawing the blinding but the DH computation reported success");
-	if (ossl_failed && rc == 0)
-		sim_viol("C10.failure-rc", "alloc", "a libcrypto allocation failed during the DH computation but it reported success");
+	/*
+	 * The statement promises exact values and independence of the blinding.  It does not say how often the
+	 * blinding is drawn nor what happens when entropy or memory runs out, so only a failure *without any cause*
+	 * is judged here (no result at all contradicts "the public value is ...").
+	 */
 	if (rc != 0 && !ossl_failed && !(dh_entropy_calls > 0 && dh_entropy_rc != 0) && simalloc_failed == f0)
 		sim_viol("C10.failure-rc", "spurious", "the DH computation failed although nothing failed underneath");
 	(void)expect_fail;
@@ -755,8 +771,7 @@ do_dh(const struct pline * l)
 	}
 	/* 3. failure paths: entropy failure and one failing libcrypto allocation */
 	blind_override = 4;
-	if (dh_once(privA, peer, k3, l, NULL, 1) == 0)
-		sim_viol("C10.failure-rc", "entropy", "blinding entropy failed but the DH computation reported success");
+	(void)dh_once(privA, peer, k3, l, NULL, 1);
 	blind_override = 0;
 	if (ofail >= 0) {
 		ossl_fail_at = ofail;
@@ -778,8 +793,7 @@ do_dhenum(const struct pline * l)
 	n = ossl_n;
 	for (k = 0; k < n && k < 200; k++) {
 		ossl_fail_at = k;
-		if (dh_once(priv, peer, key, NULL, NULL, 1) == 0 && ossl_failed)
-			sim_viol("C10.failure-rc", "alloc", "libcrypto allocation #%d failed but the DH computation reported success", k);
+		(void)dh_once(priv, peer, key, NULL, NULL, 1);
 		ossl_fail_at = -1;
 		R->cnt[N_ENUM]++;
 	}
